@@ -43,6 +43,9 @@ def run(ctx, replay=None):
         for rec in (True, False):
             ev, info = D.persist_diffusion(c, rec)
             traces.append(ev); infos.append(info); labels.append("persist-diffusion-%d-record%s" % (i, rec))
+        for variant in ("on_then_off", "data_removed"):
+            ev, info = D.persist_diffusion(c, True, variant)
+            traces.append(ev); infos.append(info); labels.append("persist-diffusion-%d-%s" % (i, variant))
     reached, res = T.validate("Equiv", [], traces, "c20_equiv")
     ctx.add_tlc(res, "Equiv over %d save/load pairs" % len(traces))
     if res.violated or reached is None:
